@@ -23,6 +23,7 @@ ASSUMPTIONS = C.STUB_ASSUMPTIONS + ["keys produced by jax.random.split are pairw
 
 def run(R, name, flag):
     from jumanji.wrappers import AutoResetWrapper
+    WC.set_mode(name)
     env = configs.make(name)
     W = AutoResetWrapper(env, next_obs_in_extras=flag)
     ctx = Ctx(max_unroll=24)
